@@ -103,3 +103,9 @@ Proof. exact wrapping_only_replaces_the_overflow_panic. Qed.
 Theorem C19_create_ignores_wrapping : forall c1 c2 s vs, same_but_wrapping c1 c2 -> Inv s -> length vs = length (cols s) ->
   push c1 s vs = push c2 s vs /\ push_within c1 s vs = push_within c2 s vs.
 Proof. exact push_ignores_wrapping. Qed.
+
+(** Debug assertions: with them on, a lookup (either key kind, any 32-bit key, any invariant storage)
+    either panics on a documented assertion or answers exactly as with them off. *)
+Theorem C19_debug_only_adds_assertions : forall c1 c2 k s h, debug c1 = true -> debug c2 = false -> Inv s -> key32 h ->
+  match resolve_key c1 k s h with RPanic _ => True | r => resolve_key c2 k s h = r end.
+Proof. exact debug_only_adds_assertions. Qed.
